@@ -14,6 +14,7 @@ package main
 import (
 	"fmt"
 	"go/ast"
+	"go/token"
 	"go/types"
 	"sort"
 	"strings"
@@ -52,6 +53,7 @@ type tableSpec struct {
 	AtLeastOnce func(ast.Node) bool
 	Pure        func(*ast.CallExpr) bool
 	PE          **pathEnum // receives the enumerator (for late-bound terms in Outcome)
+	LinkFields  bool       // see pathEnum.linkFieldStores
 }
 
 func orderAtom(a, b string) (string, bool) {
@@ -169,7 +171,7 @@ func runTable(c *Ctx, ts tableSpec) {
 	if construct == "" {
 		construct = "decision table"
 	}
-	pe := &pathEnum{info: fi.Pkg.TypesInfo, ev: ts.Events, cap: pathCap, fd: fi.Decl, atLeastOnce: ts.AtLeastOnce, pure: ts.Pure}
+	pe := &pathEnum{info: fi.Pkg.TypesInfo, ev: ts.Events, cap: pathCap, fd: fi.Decl, atLeastOnce: ts.AtLeastOnce, pure: ts.Pure, linkFields: ts.LinkFields}
 	if pe.ev == nil {
 		pe.ev = func(ast.Node) []Event { return nil }
 	}
@@ -367,6 +369,7 @@ func defaultOutcome(info *types.Info, fd *ast.FuncDecl, p Path) string {
 		var rv []string
 		for _, r := range rs.Results {
 			// a local bound to a helper's returned expression by an inline frame is classified by that expression
+			var through []types.Object
 			for hops := 0; hops < 4; hops++ {
 				id, ok := ast.Unparen(r).(*ast.Ident)
 				if !ok {
@@ -376,9 +379,14 @@ func defaultOutcome(info *types.Info, fd *ast.FuncDecl, p Path) string {
 				if !ok {
 					break
 				}
+				through = append(through, info.ObjectOf(id))
 				r = b
 			}
-			rv = append(rv, classifyValue(info, fd, r, 0))
+			cv := classifyValue(info, fd, r, 0)
+			for _, o := range through {
+				cv = completeLit(info, fd, o, cv)
+			}
+			rv = append(rv, cv)
 		}
 		ret = "ret(" + strings.Join(rv, ", ") + ")"
 	}
@@ -400,7 +408,9 @@ func classifyValue(info *types.Info, fd *ast.FuncDecl, e ast.Expr, depth int) st
 	if id, ok := e.(*ast.Ident); ok && depth < 4 {
 		if v, ok := info.ObjectOf(id).(*types.Var); ok && !v.IsField() && fd != nil {
 			if def := soleDefinition(info, fd, v); def != nil {
-				return classifyValue(info, fd, def, depth+1)
+				r := classifyValue(info, fd, def, depth+1)
+				r = completeLit(info, fd, v, r)
+				return r
 			}
 		}
 		return "var:" + id.Name
@@ -500,4 +510,35 @@ func classifyValue(info *types.Info, fd *ast.FuncDecl, e ast.Expr, depth int) st
 		return ue.Op.String() + classifyValue(info, fd, ue.X, depth+1)
 	}
 	return "expr:" + types.ExprString(e)
+}
+
+// completeLit: a structure built by a literal and completed field by field (`v := &T{A: …}; v.B = …`) is classified
+// with the fields assigned through v in fd added to those of the literal.
+func completeLit(info *types.Info, fd *ast.FuncDecl, v types.Object, r string) string {
+	if !strings.HasPrefix(r, "lit:") || !strings.HasSuffix(r, "}") || fd == nil || v == nil {
+		return r
+	}
+	open := strings.Index(r, "{")
+	set := map[string]bool{}
+	for _, k := range strings.Split(r[open+1:len(r)-1], ",") {
+		if k != "" {
+			set[k] = true
+		}
+	}
+	ast.Inspect(fd.Body, func(n ast.Node) bool {
+		if as, ok := n.(*ast.AssignStmt); ok && as.Tok == token.ASSIGN {
+			for _, l := range as.Lhs {
+				if se, ok := ast.Unparen(l).(*ast.SelectorExpr); ok && objOfIdent(info, se.X) == v {
+					set[se.Sel.Name] = true
+				}
+			}
+		}
+		return true
+	})
+	var ks []string
+	for k := range set {
+		ks = append(ks, k)
+	}
+	sort.Strings(ks)
+	return r[:open+1] + strings.Join(ks, ",") + "}"
 }
